@@ -40,7 +40,7 @@ META = dict(
                 "are compared with |z - sum coef*w^t| <= 1e-10 * sum|values|. Trusted: TLC, harness/tlaval.py, the embedding "
                 "adapter. Not compared (not stated by the property): unit, validity of the results."),
     technique=("TLA+ k-lattice / phase-table model (C11.tla) + TLC exhaustive; spec states replayed into code; code traces "
-               "validated by TLC (C11Trace.tla)"),
+               "validated by TLC (C11Trace.tla); Apalache on the index core for axes of any length (C11Core.tla: frequency range, shift, inverse shift)"),
     design_ref="DESIGN.md section 7 C11",
 )
 
@@ -680,6 +680,9 @@ def run_traces(ctx, df, ntraces, embs):
 # ------------------------------------------------------------------ entry points
 def run(ctx):
     df = core.import_library()
+    # the index core (spec/C11Core.tla): Apalache discharges the shift / frequency arithmetic for axes of any length
+    from .. import apalache
+    apalache.run_stage(ctx, module="C11Core.tla", obligations=apalache.C11_OBLIGATIONS, claim=apalache.C11_CLAIM)
     embs = embs_for(ctx.tier, ctx.seed)
     r = ctx.model("MC_C11", f"C11_{ctx.tier}.cfg", dump=True)
     if r.ok:
